@@ -242,6 +242,7 @@ MUST_FIRE += [
         multi(rep1(S + "tomography.py", "    num_qubits = preparation_circuit.num_qubits if measured_qubits is None else len(measured_qubits)\n", "    if not is_connectivity_supported(preparation_circuit.num_qubits, connectivity):\n        raise ValueError(\"unsupported\")\n    num_qubits = preparation_circuit.num_qubits if measured_qubits is None else len(measured_qubits)\n"),
               rep1(S + "tomography.py", "from .mub_circuits import get_mub_circuits\n", "from .mub_circuits import get_mub_circuits\nfrom .connectivity_support import is_connectivity_supported\n")), "early validation on the register size instead of the number of measured qubits"),
     ("m91", ["C11"], ["H1"], multi(rep1(S + "tomography.py", "    expectation_value: int = 0\n    total_count: int = 0\n    for result in circuit_result.results:", "    histogram = np.zeros(2**circuit_result.num_qubits)\n    for result in circuit_result.results:\n        histogram[result.bitstring] = result.count\n    expectation_value: int = 0\n    total_count: int = 0\n    for result in circuit_result.results:")), "outcome histogram filled by overwriting"),
+    ("m92", ["C10", "C12"], ["W4"], rep1(S + "tomography.py", "            pauli = z_pauli.evolve(inverse_circuit, frame=\"s\") # evolve backwards through circuit\n            pauli.phase = 0\n\n            z_pauli = pauli.evolve(readout_circuit, frame=\"s\") # evolve back to get sign\n            assert z_pauli.phase == 2 or z_pauli.phase == 0\n\n            expectation_value = _compute_expectation_value(circuit_result, Bitstring(i))\n            expectation_values[pauli] = expectation_value * (1 if z_pauli.phase == 0 else -1)\n", "            pauli = z_pauli.evolve(inverse_circuit, frame=\"s\")\n            pauli.phase = 0\n            sign = 1 if pauli.phase == 0 else -1\n            expectation_value = _compute_expectation_value(circuit_result, Bitstring(i))\n            expectation_values[pauli] = expectation_value * sign\n"), "single-evolve form that reads the sign after the phase was reset"),
     ("m72", ["C13"], ["A3"], rep1(S + "circuit_lookup.py", "result.circuits = [circuit.copy() for circuit in self.circuits]", "result.circuits = list(self.circuits)"), "fresh list of the cached circuits"),
 ]
 
@@ -277,6 +278,7 @@ MUST_STAY_SILENT = [
     ("s25", ["C07"], rep1(S + "stabilizer.py", "            if self.R.dtype != np.int8:\n                self.R = self.R.astype(np.int8)\n            if self.S.dtype != np.int8:\n                self.S = self.S.astype(np.int8)\n        elif isinstance(data, list):", "            if self.R.dtype != np.int8:\n                self.R = self.R.astype(np.int8)\n            if self.S.dtype != np.int8:\n                self.S = self.S.astype(np.int8)\n            self.R &= 1\n            self.S &= 1\n        elif isinstance(data, list):"), False, "the in-place reduction happens only in the tuple branch: a circuit passed to compress is not touched (C07 holds, C13 does not)"),
     ("s26", ["C08", "C02"], multi(rep1(S + "tomography.py", "    num_qubits = preparation_circuit.num_qubits if measured_qubits is None else len(measured_qubits)\n", "    _check_connectivity_name(connectivity)\n    num_qubits = preparation_circuit.num_qubits if measured_qubits is None else len(measured_qubits)\n"), rep1(S + "tomography.py", "Bitstring = np.int64\n", "Bitstring = np.int64\nConnectivity = Literal[\"all\", \"linear\", \"star\", \"cycle\", \"T\", \"Q\", \"E\", \"H\", \"ladder\"]\n\n\ndef _check_connectivity_name(connectivity: str):\n    if connectivity not in get_args(Connectivity):\n        raise ValueError(f\"Unknown connectivity '{connectivity}'\")\n"), rep1(S + "tomography.py", "from typing import Dict, List, Literal, Optional, Sequence, Tuple, Union\n", "from typing import Dict, List, Literal, Optional, Sequence, Tuple, Union, get_args\n")), False, "early name check against the complete list of names"),
     ("s27", ["C11", "C10"], multi(rep1(S + "tomography.py", "    expectation_value: int = 0\n    total_count: int = 0\n    for result in circuit_result.results:", "    histogram = np.zeros(2**circuit_result.num_qubits)\n    for result in circuit_result.results:\n        histogram[result.bitstring] += result.count\n    expectation_value: int = 0\n    total_count: int = 0\n    for result in circuit_result.results:")), True, "outcome histogram filled by scalar += (accumulates); the extra loop is outside S2's vocabulary (exit 2 tolerated), H1 must stay silent"),
+    ("s28", ["C10", "C12"], rep1(S + "tomography.py", "            pauli = z_pauli.evolve(inverse_circuit, frame=\"s\") # evolve backwards through circuit\n            pauli.phase = 0\n\n            z_pauli = pauli.evolve(readout_circuit, frame=\"s\") # evolve back to get sign\n            assert z_pauli.phase == 2 or z_pauli.phase == 0\n\n            expectation_value = _compute_expectation_value(circuit_result, Bitstring(i))\n            expectation_values[pauli] = expectation_value * (1 if z_pauli.phase == 0 else -1)\n", "            pauli = z_pauli.evolve(inverse_circuit, frame=\"s\")\n            sign = 1 if pauli.phase == 0 else -1\n            pauli.phase = 0\n            expectation_value = _compute_expectation_value(circuit_result, Bitstring(i))\n            expectation_values[pauli] = expectation_value * sign\n"), False, "single-evolve form: sign = phase of the pulled-back Pauli, read before the reset"),
     ("s16", ["C09", "C13", "C02"], rep1(S + "mub_circuits.py", "return circuit_lookup.mub_circuit_lookup(num_qubits, connectivity).circuits", "return [c for c in circuit_lookup.mub_circuit_lookup(num_qubits, connectivity).circuits]"), False, "identity comprehension"),
     ("s15", ["C13"], rep1(S + "graph.py", "    def copy(self):\n        result = Graph(self.num_vertices)", "    def copy(self):\n        # fresh object\n        result = Graph(self.num_vertices)"), False, "comment"),
 ]
